@@ -21,6 +21,7 @@ pi = _math.pi
 newaxis = None
 
 _SF = None  # SFloat class, set by symx.fp when IEEE mode is used
+IEEE = False
 
 
 def _is_sfloat(v):
@@ -46,6 +47,11 @@ class dtype_:
                 return v.to_int()
             return v
         if k == "f":
+            if IEEE and isinstance(v, (bool, int, float, Fraction, SInt)):
+                from .. import fp as _fp
+                if isinstance(v, (float, Fraction)):
+                    return _fp.SFloat(z3.FPVal(float(v), _fp.SORTS[self.name]), False)
+                return _fp.SFloat(_fp.from_int(v, _fp.SORTS[self.name]), False)
             if isinstance(v, (SReal, NaN)):
                 return v
             if isinstance(v, (SInt, SBool)):
